@@ -43,6 +43,7 @@ type Report struct {
 	Evaluations atomic.Int64
 	Distinct    atomic.Int64 // distinct non-trivial cases
 
+	stop        atomic.Bool // set once more than 2000 violations were recorded: exploration may end early
 	mu          sync.Mutex
 	violations  []Case
 	nViol       int64
@@ -110,12 +111,26 @@ func (r *Report) NotExhaustive(why string) {
 // case from scratch; the violation is only believed when it reproduces on each
 // of 5 re-executions.
 func (r *Report) Violation(c Case, recheck func() bool) {
+	// a key that was already confirmed 3 times is only counted (no re-execution)
+	r.mu.Lock()
+	if r.violKeys[c.Key] >= 3 {
+		r.violKeys[c.Key]++
+		r.nViol++
+		if r.nViol > 2000 {
+			r.stop.Store(true)
+		}
+		r.mu.Unlock()
+		return
+	}
+	r.mu.Unlock()
 	if recheck != nil {
 		for i := 0; i < 5; i++ {
 			if !recheck() {
 				r.mu.Lock()
 				r.unrepro++
-				r.Notes = append(r.Notes, "unreproduced (not reported): "+c.Key+" "+c.Observed)
+				if len(r.Notes) < 100 {
+					r.Notes = append(r.Notes, "unreproduced (not reported): "+c.Key+" "+c.Observed)
+				}
 				r.mu.Unlock()
 				return
 			}
@@ -129,6 +144,9 @@ func (r *Report) Violation(c Case, recheck func() bool) {
 	if r.violKeys[c.Key] == 1 && len(r.violations) < 40 {
 		r.violations = append(r.violations, c)
 	}
+	if r.nViol > 2000 {
+		r.stop.Store(true)
+	}
 	r.mu.Unlock()
 }
 
@@ -139,11 +157,7 @@ func (r *Report) NumViolations() int64 {
 }
 
 // TooMany reports whether exploration may stop early (enough distinct violations collected).
-func (r *Report) TooMany() bool {
-	r.mu.Lock()
-	defer r.mu.Unlock()
-	return r.nViol > 2000
-}
+func (r *Report) TooMany() bool { return r.stop.Load() }
 
 type knownLine struct {
 	prop, key, text string
@@ -306,6 +320,9 @@ func (r *Report) Finish() int {
 		fmt.Printf("  key=%s occurrences=%d\n  expected: %s\n  observed: %s\n", c.Key, keys[c.Key], trunc(c.Expected, 400), trunc(c.Observed, 400))
 	}
 	fmt.Printf("violations=%d distinct_keys=%d\n", newCount, len(keys)-len(knownHit))
+	if r.stop.Load() {
+		fmt.Println("exploration ended early after more than 2000 violations")
+	}
 	return 1
 }
 
